@@ -537,9 +537,21 @@ func genGhost(fset *token.FileSet, dir string, specs []*FuncSpec) ([]string, err
 			shapeNames = append(shapeNames, n)
 		}
 		sort.Strings(shapeNames)
+		isParam := map[string]bool{}
+		for _, a := range argNames {
+			isParam[strings.TrimSuffix(a, "...")] = true
+		}
+		if recvCall != "" {
+			isParam[strings.TrimSuffix(recvCall, ".")] = true
+		}
 		for _, n := range shapeNames {
-			if regexp.MustCompile(`^[A-Za-z_][A-Za-z_0-9.]*$`).MatchString(n) {
-				fmt.Fprintf(&body, "\tvc.Requires(%q, len(%s) == %d)\n", "shape:"+n, n, sp.Shape[n])
+			// (a shape on a package-level variable cannot be imposed on the native run)
+			if regexp.MustCompile(`^[A-Za-z_][A-Za-z_0-9.]*$`).MatchString(n) && isParam[strings.SplitN(n, ".", 2)[0]] {
+				if contains(sp.MayNil, n) {
+					fmt.Fprintf(&body, "\tvc.Requires(%q, %s == nil || len(%s) == %d)\n", "shape:"+n, n, n, sp.Shape[n])
+				} else {
+					fmt.Fprintf(&body, "\tvc.Requires(%q, len(%s) == %d)\n", "shape:"+n, n, sp.Shape[n])
+				}
 			}
 		}
 		for _, c := range sp.Requires {
